@@ -86,7 +86,7 @@ def connect(vmd_dir, timeout=20.0):
 class Reply:
     """Everything one connection received from the daemon."""
     __slots__ = ("out", "errors", "exit_code", "pong", "status", "frames", "nbytes", "eof", "partial", "timeout",
-                 "reset", "bad_version", "t_release", "t_first", "t_end", "exc", "kind", "closed_by_us", "after_exit")
+                 "reset", "bad_version", "t_release", "t_first", "t_end", "exc", "kind", "closed_by_us", "after_exit", "lost")
 
     def __init__(self):
         self.out = b""               # concatenation of all OUTPUT payloads (wherever they appear)
@@ -108,6 +108,7 @@ class Reply:
         self.kind = None
         self.closed_by_us = False
         self.after_exit = 0          # frames received after the EXIT_CODE frame
+        self.lost = None             # set by run_wave's monitor: the daemon itself reported that it serves no such session
 
     def err_text(self):
         """What `nano_vm --daemon` prints on stderr for these ERROR frames (vmd_client.c: "%s\\n" per frame)."""
@@ -281,12 +282,12 @@ def status(vmd_dir, timeout=10.0):
 class Held:
     """A LOAD_EXEC session whose last payload byte is held back until release()."""
 
-    def __init__(self, vmd_dir, blob, timeout=60.0):
+    def __init__(self, vmd_dir, blob, timeout=60.0, sock=None):
         self.blob = blob
         self.rep = Reply()
         self.rep.kind = "held-exec"
         self.timeout = timeout
-        self.sock = connect(vmd_dir, min(timeout, 30.0))
+        self.sock = sock if sock is not None else connect(vmd_dir, min(timeout, 30.0))
         _send(self.sock, header(LOAD_EXEC, len(blob)) + blob[:-1], self.rep, timeout)
 
     def release(self):
@@ -307,25 +308,46 @@ class Held:
             pass
 
 
-def run_wave(vmd_dir, blobs, mode="barrier", delays=None, timeout=120.0, extras=(), sample=True):
+def run_wave(vmd_dir, blobs, mode="barrier", delays=None, timeout=120.0, extras=(), sample=True, preconnect=False,
+             lost_grace=3.0, lost_samples=5):
     """Run len(blobs) held sessions.  mode "barrier": all last bytes are sent as soon as every connection is
     prepared; mode "jitter": session i additionally waits delays[i] seconds after the barrier.
+    preconnect: all connections are made by ONE thread in a tight loop before anything is sent (they arrive at the
+    daemon in the same instant and queue up in its listen backlog); otherwise every client thread connects itself.
     `extras`: callables started in their own threads at the barrier (e.g. real `nano_vm --daemon` processes).
     Returns (replies, extra_results, stats).
 
     stats["status_max_executing"] is a LOWER bound of the number of LOAD_EXEC sessions the daemon was serving at
     one instant: the daemon's own `active_clients` answer, minus the STATUS connection itself, minus the number
     of held connections that had not been released when the STATUS request was sent (those are counted by the
-    daemon although they are only waiting for their last byte).  The sampler is the only PING/STATUS source."""
+    daemon although they are only waiting for their last byte).  The sampler is the only PING/STATUS source.
+
+    Lost sessions (logical verdict, no wall clock involved in the decision): the daemon counts a connection from the
+    moment its thread starts until after it closed the socket, and it accepts connections in arrival order.  So when a
+    STATUS connection made AFTER all of ours is answered, every unfinished connection of this wave must be among the
+    daemon's active clients.  If the daemon reports fewer sessions than this wave still has unfinished connections,
+    with the same unfinished set, in `lost_samples` consecutive answers spread over >= `lost_grace` seconds, the
+    surplus connections that never received a byte are sessions the daemon has lost: they are marked (Reply.lost) and
+    their sockets shut down, instead of waiting for the wall-clock watchdog."""
     n = len(blobs)
     delays = list(delays) if delays is not None else [0.0] * n
     reps = [None] * n
+    helds = [None] * n
+    finished = [False] * n
     xres = [None] * len(extras)
     barrier = threading.Barrier(n + len(extras) + (1 if sample else 0))
     lock = threading.Lock()
     state = {"unreleased": n, "done": 0, "extra_running": 0}
     stats = {"status_samples": 0, "status_max_active": 0, "status_max_executing": 0, "pings": 0, "pongs": 0,
-             "status_failures": 0}
+             "status_failures": 0, "lost": 0, "preconnect": bool(preconnect)}
+    socks = [None] * n
+    pre_exc = [None] * n
+    if preconnect:
+        for i in range(n):
+            try:
+                socks[i] = connect(vmd_dir, 30.0)
+            except Exception as ex:
+                pre_exc[i] = ex
 
     def wait_barrier():
         try:
@@ -337,7 +359,10 @@ def run_wave(vmd_dir, blobs, mode="barrier", delays=None, timeout=120.0, extras=
         h = None
         rep = None
         try:
-            h = Held(vmd_dir, blobs[i], timeout)
+            if pre_exc[i] is not None:
+                raise pre_exc[i]
+            h = Held(vmd_dir, blobs[i], timeout, sock=socks[i])
+            helds[i] = h
         except Exception as ex:
             rep = Reply()
             rep.kind = "held-exec"
@@ -364,6 +389,7 @@ def run_wave(vmd_dir, blobs, mode="barrier", delays=None, timeout=120.0, extras=
                 rep.t_end = time.monotonic()
             reps[i] = rep
             with lock:
+                finished[i] = True
                 state["done"] += 1
 
     def extra(k):
@@ -380,11 +406,13 @@ def run_wave(vmd_dir, blobs, mode="barrier", delays=None, timeout=120.0, extras=
     def sampler():
         wait_barrier()
         k = 0
+        win = None                                     # (pending set, first time, consecutive answers)
         while True:
             with lock:
                 if state["done"] >= n + len(extras):
                     break
                 unreleased = state["unreleased"]
+                pending = frozenset(i for i in range(n) if not finished[i] and helds[i] is not None)
             if k % 4 == 3:
                 r = ping(vmd_dir, 10.0)
                 stats["pings"] += 1
@@ -394,10 +422,35 @@ def run_wave(vmd_dir, blobs, mode="barrier", delays=None, timeout=120.0, extras=
                 a = r.active_clients()
                 if a is None:
                     stats["status_failures"] += 1
+                    win = None
                 else:
                     stats["status_samples"] += 1
                     stats["status_max_active"] = max(stats["status_max_active"], a)
                     stats["status_max_executing"] = max(stats["status_max_executing"], a - 1 - unreleased)
+                    now = time.monotonic()
+                    if pending and a - 1 < len(pending):
+                        if win is None or win[0] != pending:
+                            win = (pending, now, 1)
+                        else:
+                            win = (pending, win[1], win[2] + 1)
+                        if win[2] >= lost_samples and now - win[1] >= lost_grace:
+                            with lock:
+                                still = [i for i in sorted(pending) if not finished[i]]
+                            if len(still) == len(pending):
+                                deficit = len(pending) - (a - 1)
+                                cand = [i for i in still if helds[i].rep.nbytes == 0 and helds[i].rep.t_release is not None]
+                                for i in cand[:deficit]:
+                                    helds[i].rep.lost = ("daemon reported active_clients=%d (incl. the STATUS connection) in %d consecutive "
+                                                         "answers over %.1f s while %d connections of this wave were unfinished"
+                                                         % (a, win[2], now - win[1], len(pending)))
+                                    stats["lost"] += 1
+                                    try:
+                                        helds[i].sock.shutdown(socket.SHUT_RDWR)
+                                    except OSError:
+                                        pass
+                            win = None
+                    else:
+                        win = None
             k += 1
             time.sleep(0.001)
 
@@ -416,6 +469,20 @@ def run_wave(vmd_dir, blobs, mode="barrier", delays=None, timeout=120.0, extras=
             reps[i].timeout = True
             reps[i].exc = "client thread did not finish"
     return reps, xres, stats
+
+
+def nothing_in_service(vmd_dir, samples=3, spread=1.0):
+    """The daemon answers PING and, in `samples` STATUS answers spread over `spread` seconds, reports no client but the
+    STATUS connection itself.  Used after a client-side watchdog fired: a client that still waits although the daemon
+    says it serves nobody has been lost by the daemon (connections are accepted in arrival order)."""
+    if not ping(vmd_dir, 10.0).pong:
+        return False
+    for k in range(samples):
+        if status(vmd_dir, 10.0).active_clients() != 1:
+            return False
+        if k + 1 < samples:
+            time.sleep(spread / max(1, samples - 1))
+    return True
 
 
 def overlap_pattern(reps):
